@@ -23,7 +23,8 @@ RULE = ('random 1-3-D sources (axis lengths 0-12) labelled injectively in C orde
         'arrays, some empty, parts with their own first stage and their own dtype: one common dtype, byte strings of '
         'different widths in any order, or kinds that katdal rejects; 12% of the common-dtype cases give the parts '
         'their own elementwise dtype-changing chain) plus a fixed sweep of (part dtypes x head kind x dtype-changing '
-        'transform); API forms: index / first stage as a tuple or bare, Python or numpy integers, lists or arrays; '
+        'transform) and a fixed sweep of empty selections of the concatenated indexer (every empty head slice over 5 '
+        'splits, every head kind x tails of which one selects nothing); API forms: index / first stage as a tuple or bare, Python or numpy integers, lists or arrays; '
         'every indexer is asked three times (request, self[:], the request again) and its shape / dtype / len() are '
         'read before and after; a case is one (source kind, shape(s), dtype(s), stage 1, transforms, stage 2, API form); '
         'values, shape AND dtype of every answer are compared; non-trivial when the implementation returns at least '
